@@ -136,7 +136,11 @@ def render(inst, idx, dirs, reverse_order, cxx):
     ename = (pre + '/' + d + '/' if d else pre + '/') + 'prog'
     lines.append("executable(%r, [%r], libs=[%s])" % (ename, '%s/main.%s' % (pre, ext),
                                                       ', '.join(libvar(j) for j in deps)))
-    return lines, files, ename
+    # a second consumer of the same libraries at another depth of the tree (its own run path)
+    ename2 = pre + '/zz/deeper/prog2'
+    lines.append("executable(%r, [%r], libs=[%s])" % (ename2, '%s/main.%s' % (pre, ext),
+                                                      ', '.join(libvar(j) for j in deps)))
+    return lines, files, (ename, ename2)
 
 
 def check_elf(path, bld):
@@ -193,7 +197,7 @@ def _shard(arg):
             bld_now = moved
         else:
             bld_now = bld
-        for e in exes:
+        for e in [x for pair in exes for x in pair]:
             p = os.path.join(bld_now, e)
             if not os.path.exists(p):
                 runs[(e, phase)] = 'not built'
@@ -202,24 +206,29 @@ def _shard(arg):
                                 cwd='/')
             runs[(e, phase)] = pr.stdout.strip() if pr.returncode == 0 else \
                 'exit %d: %s' % (pr.returncode, pr.stderr.strip()[-150:])
-    for (inst, dirs, rev), e in zip(batch, exes):
+    for (inst, dirs, rev), pair in zip(batch, exes):
         want = str(expected_value(inst))
         msg = None
+        e = pair[0]
+        for cand in pair:
+            if runs[(cand, 'in-place')] != want or runs[(cand, 'moved')] != want:
+                e = cand
+                break
         if runs[(e, 'in-place')] == 'not built':
             # find this instance's error in the make output
             pre = e.split('/')[0]
             errs = [l for l in out.splitlines() if pre + '/' in l and ('rror' in l or 'undefined' in l)]
             msg = 'build fails: ' + ' | '.join(errs[-3:])[:400]
         elif runs[(e, 'in-place')] != want:
-            msg = 'run in place: printed %r, expected %s' % (runs[(e, 'in-place')], want)
+            msg = '%s run in place: printed %r, expected %s' % (e.split('/')[-1], runs[(e, 'in-place')], want)
         elif runs[(e, 'moved')] != want:
-            msg = 'after moving the build directory: %r, expected %s' % (runs[(e, 'moved')], want)
+            msg = '%s after moving the build directory: %r, expected %s' % (e.split('/')[-1], runs[(e, 'moved')], want)
         else:
             d = os.path.join(moved, e.split('/')[0])
             probs = []
             for b, ds, fs in os.walk(d):
                 for f in fs:
-                    if f == 'prog' or '.so' in f:
+                    if f in ('prog', 'prog2') or '.so' in f:
                         probs += ['%s: %s' % (f, p) for p in check_elf(os.path.join(b, f), moved)]
             if probs:
                 msg = '; '.join(probs[:3])
